@@ -22,6 +22,7 @@ import (
 //	H1 = H0 + block with A's nonces 0 and 1
 //	H1x = sibling of H1 without them (reorg target)
 //	H2 = child of H1 in which A spends almost everything (balance drop)
+//	H2x = empty child of H1x (reorg target one block higher than H1)
 type world struct {
 	env    *chainkit.Env
 	heads  map[string]*types.Block
@@ -83,6 +84,11 @@ func newWorld() *world {
 		g.SetExtra([]byte{1})
 	})
 	w.heads["H1x"] = h1x[0]
+	// H2x = child of H1x: from H1 a reorganisation to a branch that is one block LONGER (from H2, of equal length)
+	h2x, _ := env.Gen(h1x[0], chainkit.Faker(), 1, func(i int, g *core.BlockGen) {
+		g.SetExtra([]byte{2})
+	})
+	w.heads["H2x"] = h2x[0]
 	h2, _ := env.Gen(h1[0], chainkit.Faker(), 1, func(i int, g *core.BlockGen) {
 		spend := new(big.Int).Div(new(big.Int).Mul(bal, big.NewInt(3)), big.NewInt(4))
 		g.AddTx(mk(0, 2, 100*gwei, spend, 21000))
